@@ -47,6 +47,7 @@ func setupMiner(w *world.World) *minerWorld {
 	memorystore.AddPool("txndb", nopPool())
 	memorystore.AddPool("clientdb", nopPool())
 	miner.SetupNotarizationEntity()
+	block.SetupBVTEntity()
 	miner.SetupMinerChain(w.Chain)
 	// production N2N senders/requestors (miner/miner: initN2NHandlers); every other node is
 	// inactive, so each send / fetch is a no-op that finds nobody
